@@ -67,6 +67,9 @@ def cover(g, init=None, max_len=400, edge_filter=None, limit=None, covered=None,
     if covered is None:
         covered = set()
     paths = []
+    # bounded jumps are what keeps the number of paths low, but a Python BFS per dead end is too slow on big graphs
+    big = len(g.edges) > 100000
+    jump_depth, jump_nodes = (4, 150) if big else (8, 3000)
     want = [ei for ei in range(len(g.edges)) if edge_filter is None or edge_filter(g.edges[ei])]
     wantset = set(want)
     for u in order:
@@ -90,7 +93,7 @@ def cover(g, init=None, max_len=400, edge_filter=None, limit=None, covered=None,
                         nxt = ne
                         break
                 if nxt is None and jump and len(path) + 9 < max_len:
-                    hop = _nearest_uncovered(g, v, covered, wantset)
+                    hop = _nearest_uncovered(g, v, covered, wantset, jump_depth, jump_nodes)
                     if hop:
                         for he in hop:
                             path.append(he)
